@@ -21,9 +21,15 @@ A file is the list of its datasets whose names `parse_hdf5_key` accepts, in
 h5py (alphabetical) order.  `none` = the code raises (ValueError, IndexError,
 KeyError, TypeError, numpy shape mismatch).
 
-Not modelled HERE (literal model: Model/MultiThorn.lean): a requested variable name
-that exists in two thorns of the same file (e.g. `ML_BSSN::H` and
-`ML_ADMCONSTRAINTS::H`).  The code then rewrites its variable list to `THORN::var`
+THIS MODEL IS THE SPECIALISATION of the literal model Model/MultiThorn.lean (`readCheckpointsM`;
+the code has ONE implementation) to the ordinary case "no requested name is answered by two
+datasets of one (iteration, level, component)".  Proven in Lemmas/C11MultiThornEq.lean /
+Props/C11e.lean: `literal_model_specialises` (the two models agree, raising or not, whenever no
+candidate list has two members), `old_model_read_transfers` (`readCheckpoints .. = some T →
+readCheckpointsM .. = some T`, no hypothesis), so every theorem of Props/C11c holds for the
+literal model (`checkpoint_table_exact_literal`, `checkpoint_pipeline_exact_literal`).
+Not modelled HERE: a requested variable name that exists in two thorns of the same file (e.g.
+`ML_BSSN::H` and `ML_ADMCONSTRAINTS::H`).  The code then rewrites its variable list to `THORN::var`
 names (one file per process, or no chunks) or raises (one file, several chunks);
 this model returns `none` whenever a (variable, chunk) selects more than one dataset.  `f"it_{iit}." in path` is
 modelled as equality with the iteration in the file name (the directory names
